@@ -201,6 +201,27 @@ theorem readdir_reply_lists_the_directory_warm (s0 : St) (rs : List Req) (h0 : C
       ((Fs.sortByName (Fs.children (runReqs s0 rs).fs (fsPath n.path))).map (·.1)).filter (listable n.path) :=
   procReaddir_whole _ s' c args a verf ents (runReqs_cinv s0 rs h0) (runReqs_dcSup s0 rs h0 hS0) hd r1 r2 n hfh hck hn h
 
+/-- … and the same for READDIRPLUS -/
+theorem readdirplus_reply_lists_the_directory_warm (s0 : St) (rs : List Req) (h0 : CInv s0) (hS0 : DcSup s0) (s' : St)
+    (c : Ctx) (args : Bytes) (a : Option Rfc.Fattr) (verf : Bytes) (ents : List Rfc.DirEntPlus) (hd : Nat) (r1 r2 : Bytes)
+    (n : Node) (hfh : decFh' (runReqs s0 rs) args = some (hd, r1)) (hck : decU64 r1 = some (0, r2))
+    (hn : nodeOf (runReqs s0 rs) hd = some n)
+    (h : procReaddirplus (runReqs s0 rs) c args = (s', .res ⟨0, .readdirplusOk a verf ents true⟩)) :
+    ents.map (·.name) =
+      ((Fs.sortByName (Fs.children (runReqs s0 rs).fs (fsPath n.path))).map (·.1)).filter (listable n.path) :=
+  procReaddirplus_whole _ s' c args a verf ents (runReqs_cinv s0 rs h0) (runReqs_dcSup s0 rs h0 hS0) hd r1 r2 n hfh hck hn h
+
+/-- hence no name appears twice in such a reply, and the names are strictly increasing in byte order -/
+theorem readdir_reply_names_increasing (s0 : St) (rs : List Req) (h0 : CInv s0) (hS0 : DcSup s0) (s' : St) (c : Ctx)
+    (args : Bytes) (a : Option Rfc.Fattr) (verf : Bytes) (ents : List Rfc.DirEnt) (hd : Nat) (r1 r2 : Bytes) (n : Node)
+    (hfh : decFh' (runReqs s0 rs) args = some (hd, r1)) (hck : decU64 r1 = some (0, r2))
+    (hn : nodeOf (runReqs s0 rs) hd = some n)
+    (h : procReaddir (runReqs s0 rs) c args = (s', .res ⟨0, .readdirOk a verf ents true⟩)) :
+    Fs.Increasing (ents.map (·.name)) ∧ (ents.map (·.name)).Nodup := by
+  rw [readdir_reply_lists_the_directory_warm s0 rs h0 hS0 s' c args a verf ents hd r1 r2 n hfh hck hn h]
+  have hinc := (Fs.sorted_children_increasing (runReqs_cinv s0 rs h0).wf (fsPath n.path)).filter (listable n.path)
+  exact ⟨hinc, hinc.nodup⟩
+
 /-- a corollary in membership form: the same call when the directory cache *does* hold a listing (any state reached by any history from a server whose
     directory cache started empty): a reply from cookie 0 answered NFS3_OK with eof names every object the backend has
     directly below the directory whose name the listing loop accepts. -/
